@@ -157,3 +157,23 @@ Proof.
       eapply do_push_nonempty; [exact D|]. destruct rep; [reflexivity|discriminate].
   - discriminate.
 Qed.
+
+(* the value expression built for a field-operation chain contains exactly the method calls written in the chain *)
+Fixpoint fop_methods (o : fop) : nat :=
+  match o with
+  | OMethod _ _ _ _ => 1
+  | OChained _ ops => (fix sum (l : list fop) : nat := match l with [] => 0 | x :: r => fop_methods x + sum r end) ops
+  | _ => 0
+  end.
+
+Lemma vmethods_iter_deref sp : forall n base, vmethods (Nat.iter n (VDeref sp) base) = vmethods base.
+Proof. induction n as [|n IH]; intros base; cbn; [reflexivity|apply IH]. Qed.
+
+Lemma vmethods_apply_ops : forall o base, vmethods (apply_ops base o) = vmethods base + fop_methods o.
+Proof.
+  fix IH 1. intros o base. destruct o as [count sp|name nsp sp args|sp|name nsp sp|idx sp|i sp|sp ops]; cbn [apply_ops fop_methods vmethods];
+    try lia.
+  - change (vmethods (VDeref sp (Nat.iter count (VDeref sp) base)) = vmethods base + 0). cbn [vmethods]. rewrite vmethods_iter_deref. lia.
+  - revert base. induction ops as [|x r IHr]; intros base; cbn [fold_left]; [lia|].
+    rewrite IHr. rewrite (IH x base). lia.
+Qed.
